@@ -155,7 +155,8 @@ theorem removed_cancelled (es : List Ev) (s : St) (hr : model.run model.init es 
 executable monitor `monC07c` (= `monC07a` × `monC06o` + one check): whenever no call is in progress and the
 history shows that the key of a routine is out of the set — removed at once, or removed with a delay that
 has expired by a quiescence point, and not requested since — or that the context was cleared, a probe of
-the routine's context finds it cancelled. The same monitor runs on the histories of the real code.
+the routine's context finds it cancelled; and no call is still in progress at a quiescence point (every call
+returns). The same monitor runs on the histories of the real code.
 (`monC07`'s clause is sharper: it also demands cancellation right after an overlapped removal's effects
 are known and tracks generations; for it only the state-level theorem above is proved.) -/
 theorem C07_obs_removed_cancelled (es : List Ev) (s : St) (hr : model.run model.init es = some s) :
@@ -191,9 +192,20 @@ while the backoff has not said Stop … -/
 theorem retry_pending_armed (s : St) (g i n : Nat) (y : G) (x : Inst) (r : Rec)
     (hy : s.gens[g]? = some y) (hx : y.insts[i]? = some x) (hst : x.st = .closed)
     (hk : s.key y.key = some r) (hid : r.id = x.rid) (hg : r.gen = g) (hc : r.cur = some i)
-    (hf : x.failed = true) (hcfg : retryCfg s = some n) (hbo : r.bo < n) :
+    (hf : x.failed = true) (hcfg : retryCfg s = some n) (hbo : armOk s n r x = true) :
     ∃ s', model.step s (.record g i) = some s' ∧ Pending s' y.key :=
   retry_armed s g i n y x r hy hx hst hk hid hg hc hf hcfg hbo
+
+/-- `armOk` for the two retry configurations: the scripted backoff (`WithBackoff`) has not said Stop while
+fewer than `n` failures were counted since the last success; the library backoff (`WithRetry`, constant
+interval, `MaxElapsedTime` one epoch) has not said Stop in the epoch in which the record's own backoff
+object was constructed (`SetKey`/`SyncKeys`/`AddKeyRef` of a new key, `ResetRoutine`) or last reset
+(success) — per record, whatever other keys did. -/
+theorem retry_pending_armed_count (s : St) (n : Nat) (r : Rec) (x : Inst) (hf : freshCfg s = false)
+    (hbo : r.bo < n) : armOk s n r x = true := armOk_count s n r x hf hbo
+
+theorem retry_pending_armed_fresh (s : St) (n : Nat) (r : Rec) (x : Inst) (hf : freshCfg s = true)
+    (hb : r.born = x.retEpoch) : armOk s n r x = true := armOk_fresh s n r x hf hb
 
 /-- … non-restarting calls keep it: `SetKey(k, start = false)` (this is D6), `SyncKeys(…, restart =
 false)` that keeps `k`, and calls on other keys … -/
